@@ -132,17 +132,22 @@ _HEX = re.compile(r"0x[0-9a-fA-F]+")
 _ARGN = re.compile(r"(?<![A-Za-z0-9_])arg_[0-9]+(?![A-Za-z0-9_])")
 
 
-def normalise(texts, names, masks):
+def normalise(texts, names, masks, code=False):
     """texts: list of str. Replace every generated name (whole word) by base#k with k the
-    order of first appearance over the concatenation; mask paths and addresses."""
+    order of first appearance over the concatenation; mask paths and addresses.
+    code=True: the texts are generated source files - string literals are left alone (a bank called "muons10" is
+    the query's own text even when the translator happens to have generated an identifier muons10 earlier)."""
     names = sorted(set(names), key=len, reverse=True)
     out = []
     order = {}
     if names:
-        rx = re.compile(r"(?<![A-Za-z0-9_])(" + "|".join(re.escape(n) for n in names) + r")(?![A-Za-z0-9_])")
+        lit = r'("(?:[^"\\\n]|\\.)*")|' if code else "()"
+        rx = re.compile(lit + r"(?<![A-Za-z0-9_])(" + "|".join(re.escape(n) for n in names) + r")(?![A-Za-z0-9_])")
 
         def sub(m):
-            n = m.group(1)
+            if m.group(1):
+                return m.group(1)
+            n = m.group(2)
             if n not in order:
                 order[n] = len(order)
             return f"{n.rstrip('0123456789')}#{order[n]}"
@@ -439,7 +444,7 @@ def translate(exe, query, outdir, ld=False, io_plan=None, abort_plan=None, extra
         else:
             raw[fn] = ""
             present[fn] = False
-    norm = normalise([raw[fn] for fn in info.all_filenames], names, masks)
+    norm = normalise([raw[fn] for fn in info.all_filenames], names, masks, code=True)
     for fn, t in zip(info.all_filenames, norm):
         files[fn] = t
     ms = outdir / info.main_script
